@@ -520,6 +520,14 @@ def run_case(ctx, case):
         c.load_received_public_key_der(k2.verifying_key.to_der())
         if c.generate_sharedsecret_bytes() != s1 or c.generate_sharedsecret() != int.from_bytes(s1, "big"):
             return o.viol("ecdh|loaders|%s" % cur.name, "%s: DER loaders give another secret" % cur.name)
+        if cur.name == "NIST256p":
+            # the key-agreement entry point bec2format itself uses (the plug-in's key objects): same fixed-length secret
+            from .. import fixtures as FX
+            for da, db, who in ((d1, d2, "A"), (d2, d1, "B")):
+                got = FX.priv_key(da).compute_dh_secret(FX.priv_key(db).public_key)
+                if got != ox:
+                    return o.viol("ecdh|plugin|%s" % cur.name, "party %s: compute_dh_secret of the registered key objects returns %d bytes %s..., OpenSSL derives %s..." % (
+                        who, len(got), bytes(got[:4]).hex(), ox[:4].hex()))
         return o
     if kind == "invalid":
         return invalid_case(ctx, o, STD[case[1]], case[2])
